@@ -323,22 +323,51 @@ def make_op(o, h):
 
 
 def build(spec, h):
+    """With spec["share"], commands that are the same operation with the same parameters re-use ONE operation
+    instance (the way `op = MeasureHomodyne(0, select=0.3); op | q[0]; op | q[1]` does)."""
     prog = sf.Program(spec["n"])
+    cache = {}
     with prog.context as q:
         for o in spec["ops"]:
-            make_op(o, h) | tuple(q[m] for m in o["m"])
+            if spec.get("share"):
+                key = json.dumps({k: v for k, v in o.items() if k != "m"}, sort_keys=True)
+                if key not in cache:
+                    cache[key] = make_op(o, h)
+                op = cache[key]
+            else:
+                op = make_op(o, h)
+            op | tuple(q[m] for m in o["m"])
     return prog
+
+
+def new_engine(spec):
+    opts = {"cutoff_dim": spec["cutoff"]} if spec["backend"] == "fock" else {}
+    return sf.Engine(spec["backend"], backend_options=opts)
+
+
+def fingerprint(prog):
+    """The user-visible attributes of every operation object of a program (parameters, select, dagger)."""
+    out = []
+    for cmd in prog.circuit:
+        op = cmd.op
+        ps = []
+        for x in getattr(op, "p", []):
+            try:
+                ps.append(np.asarray(x, dtype=complex).ravel().tolist())
+            except Exception:
+                ps.append(repr(x))
+        out.append([type(op).__name__, repr(ps), repr(getattr(op, "select", None)), bool(getattr(op, "dagger", False)), [r.ind for r in cmd.reg]])
+    return out
 
 
 def spec_seed(spec):
     return int(hashlib.sha1(json.dumps(spec, sort_keys=True).encode()).hexdigest()[:8], 16)
 
 
-def run_spec(spec, h, wrap=None):
+def run_spec(spec, h, wrap=None, prog=None):
     """Run the experiment at hbar = h.  Caller holds Hbar(h)."""
-    prog = build(spec, h)
-    opts = {"cutoff_dim": spec["cutoff"]} if spec["backend"] == "fock" else {}
-    eng = sf.Engine(spec["backend"], backend_options=opts)
+    prog = build(spec, h) if prog is None else prog
+    eng = new_engine(spec)
     if wrap is not None:
         wrap(eng.backend)
     np.random.seed(spec_seed(spec) % (2 ** 31))
@@ -352,13 +381,18 @@ def _c(x):
 
 def observables(spec, h, which=None):
     """Dict name -> complex vector, every entry divided by its documented unit (so: hbar-free)."""
+    with Hbar(h):
+        return observables_of(run_spec(spec, h), spec, h, which)
+
+
+def observables_of(res, spec, h, which=None):
+    """Caller holds Hbar(h)."""
     out = {}
     rt = math.sqrt(h)
     q = spec["q"]
     n = spec["n"]
     be = spec["backend"]
-    with Hbar(h):
-        res = run_spec(spec, h)
+    if True:
         st = res.state
 
         def put(name, fn):
@@ -500,10 +534,8 @@ def _short(v):
     return [complex(round(x.real, 9), round(x.imag, 9)).__repr__() for x in v[:8]]
 
 
-def compare_pair(spec, h1, h2, which=None):
-    """Names of observables whose unit-free value differs between the two conventions."""
-    o1 = observables(spec, h1, which)
-    o2 = observables(spec, h2, which)
+def diff_obs(spec, o1, o2):
+    """Names (with both values) of observables whose unit-free values differ."""
     bad = []
     # non-Gaussian bosonic states are sums of Gaussians with large alternating weights: cancellation noise ~1e-6
     tol = 1e-4 if (spec["backend"] == "bosonic" and any(o["op"] in ("Fock", "Catstate", "GKP") for o in spec["ops"])) else 1e-7
@@ -517,7 +549,105 @@ def compare_pair(spec, h1, h2, which=None):
     if spec["backend"] == "gaussian" and any(k == "is_pure" for k, _, _ in bad):
         # is_pure selects the code path of these queries; same root cause
         bad = [(("is_pure" if k in PURE_DEPENDENT else k), a, b) for k, a, b in bad]
-    return bad, len(o1)
+    return bad
+
+
+def compare_pair(spec, h1, h2, which=None):
+    """Names of observables whose unit-free value differs between the two conventions."""
+    o1 = observables(spec, h1, which)
+    o2 = observables(spec, h2, which)
+    return diff_obs(spec, o1, o2), len(o1)
+
+
+# ---- object re-use histories: the same Program / operation objects applied several times ----------------------
+
+UNIT_OPS = ("Xgate", "Zgate", "Vgate", "MeasureHomodyne", "MSgate", "Gaussian")
+
+
+def gen_reuse_spec(rng, backend):
+    """A circuit in which operation instances that convert units at apply time are re-used on several modes."""
+    spec = gen_spec(rng, backend)
+    spec["share"] = True
+    n = spec["n"]
+    opsl = spec["ops"]
+    if not any(o["op"] == "MeasureHomodyne" and o["select"] for o in opsl) and not (backend == "bosonic" and n == 1) and rng.random() < 0.7:
+        opsl.append({"op": "MeasureHomodyne", "phi": draw(rng, "a"), "select": rng.choice([-1, 1]) * _r3(rng.uniform(0.2, 1.0)), "m": [rng.randrange(n)], "dg": False})
+    if not has_hbar_op(spec):
+        opsl.append({"op": rng.choice(["Xgate", "Zgate"]), "p": [_r3(rng.uniform(0.3, 1.2))], "m": [rng.randrange(n)], "dg": False})
+    # the same instance applied again (other mode when there is one)
+    cand = [i for i, o in enumerate(opsl) if o["op"] in UNIT_OPS and not (o["op"] == "MSgate" and o["avg"])]
+    for i in rng.sample(cand, min(len(cand), rng.randint(1, 2))):
+        o = copy.deepcopy(opsl[i])
+        k = len(o["m"])
+        if n > k or k == 1:
+            others = [m for m in range(n) if m not in o["m"]] or list(range(n))
+            o["m"] = sorted(rng.sample(others, k)) if len(others) >= k else o["m"]
+        if o["op"] == "MeasureHomodyne" and backend == "bosonic" and len({x["m"][0] for x in opsl if x["op"] == "MeasureHomodyne"} | {o["m"][0]}) >= n:
+            continue  # keep one unmeasured mode on the bosonic backend
+        opsl.insert(i + 1, o)
+    return spec
+
+
+def reuse_history(spec, h, runs, style, which=None):
+    """Observables of every one of `runs` executions of ONE Program object (style 'reset': one engine, reset
+    between runs; 'fresh': a new engine per run), plus whether the operations' own attributes changed."""
+    outs = []
+    with Hbar(h):
+        prog = build(spec, h)
+        fp0 = fingerprint(prog)
+        eng = None
+        for r in range(runs):
+            if style == "fresh" or eng is None:
+                eng = new_engine(spec)
+            else:
+                eng.reset()
+            np.random.seed(spec_seed(spec) % (2 ** 31))
+            res = eng.run(prog)
+            o = observables_of(res, spec, h, which)
+            fp = fingerprint(prog)
+            if which is None or "op-attributes" in which:
+                ch = [a for a, b in zip(fp0, fp) if a != b]
+                o["op-attributes"] = "unchanged" if fp == fp0 else "changed: %s" % (ch[0][0] if ch else "length")
+            outs.append(o)
+    return outs
+
+
+def reuse_eval(spec, h, runs, style, which=None):
+    """Every run at hbar = h against the corresponding run of the same history at hbar = 2 (where every unit
+    conversion is the identity), so that only the dependence on hbar is judged, not what re-running does."""
+    ref = reuse_history(spec, 2.0, runs, style, which)
+    hist = reuse_history(spec, h, runs, style, which)
+    bad = []
+    for r, (o, o2) in enumerate(zip(hist, ref)):
+        for name, v1, v2 in diff_obs(spec, o, o2):
+            bad.append((r + 1, name, v1, v2))
+    return bad, sum(len(o) for o in hist)
+
+
+def _search_reuse(ctx, rng):
+    for i in range(ctx.budget(60, 700)):
+        be = ["gaussian", "bosonic", "fock"][i % 3]
+        spec = gen_reuse_spec(rng, be)
+        h = rng.choice([x for x in HBARS if x != 2.0]) if rng.random() < 0.7 else _r3(rng.uniform(0.3, 5.0))
+        runs = rng.choice([2, 2, 3])
+        style = rng.choice(["reset", "fresh"])
+        try:
+            bad, nobs = reuse_eval(spec, h, runs, style)
+        except Exception as e:
+            ctx.case({"reuse": spec_seed(spec), "h": h, "error": type(e).__name__}, nontrivial=False, bucket="reuse-error:%s:%s" % (be, type(e).__name__))
+            continue
+        ctx.case({"reuse": True, "backend": be, "n": spec["n"], "ops": [[o["op"], o["m"]] for o in spec["ops"]], "h": h, "runs": runs, "style": style},
+                 nontrivial=True, bucket="reuse:%s:%s" % (be, style))
+        ctx.extra["observables_compared"] = ctx.extra.get("observables_compared", 0) + nobs
+        seen = set()
+        for r, name, v1, v2 in bad:
+            sig = "%s:%s%s" % (be, name, "" if r == 1 else ":rerun")
+            if sig in seen:
+                continue
+            seen.add(sig)
+            ctx.counterexample(sig, "run %d of %d (%s) of one Program object at hbar=%s: %s (unit divided out) is %s, the hbar=2 reference gives %s"
+                               % (r, runs, style, h, name, v1, v2),
+                               {"check": "reuse", "spec": spec, "h": h, "runs": runs, "style": style, "obs": name, "run": r})
 
 
 # signature of an observable-level failure (no finding is recorded for C15 any more: every one is a VIOLATION)
@@ -569,6 +699,7 @@ def _search(ctx, rng):
                                "%s on the %s backend is not hbar-independent after dividing out its unit: hbar=%s gives %s, hbar=%s gives %s"
                                % (name, be, h1, v1, h2, v2),
                                {"check": "pair", "spec": spec, "h1": h1, "h2": h2, "obs": name})
+    _search_reuse(ctx, rng)
     _search_units(ctx, rng)
     _search_utils(ctx, rng)
 
@@ -833,9 +964,15 @@ def corr_frontend(ctx):
         spec = gen_corr_spec(rng)
         h = rng.choice(HBARS) if rng.random() < 0.6 else _r3(rng.uniform(0.3, 5.0))
         log = []
+        log2 = None
         try:
             with Hbar(h):
-                res = run_spec(spec, h, wrap=wrap_backend(log))
+                prog = build(spec, h)
+                res = run_spec(spec, h, wrap=wrap_backend(log), prog=prog)
+                if rng.random() < 0.4:
+                    # the same Program object on a second engine: the backend must be handed the same numbers again
+                    log2 = []
+                    run_spec(spec, h, wrap=wrap_backend(log2), prog=prog)
                 gaussV = []
                 for o in spec["ops"]:
                     if o["op"] == "Gaussian" and o["decomp"]:
@@ -860,7 +997,7 @@ def corr_frontend(ctx):
                 outs.append(["OAncilla", float(anc[m][aidx.get(m, 0)])])
                 aidx[m] = aidx.get(m, 0) + 1
         draws = [e[-1] for e in log if e[0] in ("homo", "ms")]
-        cases.append((spec, h, log, gaussV, outs, draws))
+        cases.append((spec, h, log, gaussV, outs, draws, log2))
         ctx.case({"corr": "frontend", "backend": spec["backend"], "ops": [o["op"] for o in spec["ops"]], "h": h},
                  nontrivial=has_hbar_op(spec) and h != 2, bucket="corrA:" + spec["backend"])
     sf.hbar = 2
@@ -869,18 +1006,23 @@ def corr_frontend(ctx):
         lines = ["From Coq Require Import List PrimFloat.", "Import ListNotations.", "From SFV Require Import C15.Model C15.Exec.",
                  "Eval vm_compute in ["]
         items = []
-        for spec, h, log, gaussV, outs, draws in sh:
+        for spec, h, log, gaussV, outs, draws, log2 in sh:
             items.append("run_rec %s %s %s %s" % (coq_ctx(h), F(HALFPI), coq_ops(spec, h), coq.coq_list(draws, F)))
         lines.append(";\n".join(items) + "].")
         ok, vals, raw = ctx.coq_eval("cases_frontend_%d" % (si // 300), "\n".join(lines))
         if not ok:
             ctx.obligation("correspondence:frontend:shard%d" % (si // 300), False, raw)
             return
-        for (spec, h, log, gaussV, outs, draws), mv in zip(sh, vals[0]):
+        for (spec, h, log, gaussV, outs, draws, log2), mv in zip(sh, vals[0]):
             mlog, mouts = mv
             mfree = [c for c in mlog if isinstance(c, tuple) and c[0] == "CFree" and c[1] == 99]
             mcalls = [c for c in mlog if not (isinstance(c, tuple) and c[0] == "CFree")]
             msg = same_log(log, mcalls)
+            if msg is None and log2 is not None:
+                # (returned sample values of the second run are not compared: only what the backend is asked to do)
+                msg2 = same_log([e[:-1] + [None] if e[0] in ("homo", "ms") else e for e in log2], mcalls)
+                if msg2 is not None:
+                    msg = "second run of the same Program object: " + msg2
             if msg is None:
                 if len(mfree) != len(gaussV) or any(len(a[2]) != len(b) or not all(close(x, y) for x, y in zip(a[2], b)) for a, b in zip(mfree, gaussV)):
                     msg = "Gaussian.p[0] (V / (hbar/2)) differs: impl %s, model %s" % (gaussV, [a[2] for a in mfree])
@@ -1088,6 +1230,11 @@ def replay(ctx, data):
             for name, v1, v2 in bad:
                 print("%s: hbar=%s -> %s ; hbar=%s -> %s (unit divided out)" % (name, d["h1"], v1, d["h2"], v2))
             return any(name == d["obs"] for name, _, _ in bad)
+        if d.get("check") == "reuse":
+            bad, _ = reuse_eval(d["spec"], d["h"], d["runs"], d["style"])
+            for r, name, v1, v2 in bad:
+                print("run %d: %s: hbar=%s -> %s ; hbar=2 reference -> %s (unit divided out)" % (r, name, d["h"], v1, v2))
+            return any(name == d["obs"] for _, name, _, _ in bad)
         if d.get("check") == "units":
             bad = units_eval(d["case"], d["h"])
             for b in bad:
